@@ -1289,6 +1289,73 @@ func (g *gen) iterFocus(n int, order, kind string, removeNum, removeDen int, dis
 	g.add("shape")
 }
 
+// multiIter: the histories of the C10_multi_* theorems (Model/C10Multi.lean, answered by `mstep`): 2-4 iterators of
+// mixed kinds alive at once over n keys, advanced in a random interleaving; removals through one of them while the
+// others are mid-way (they must fail fast from then on, the remover must go on); in between value-only Puts on
+// present keys (no structural change: everybody goes on), queries, now and then a structural map change or a
+// re-created slot.
+func (g *gen) multiIter(n int) {
+	R := g.r.R
+	ks := g.order(orders[R.Intn(len(orders))], n, 2)
+	for _, k := range ks {
+		g.add("put %d %d", k, g.val())
+	}
+	for i := 0; i < n/4; i++ {
+		g.add("rm %d", ks[R.Intn(n)])
+	}
+	g.add("shape")
+	slots := R.Range(2, 4)
+	for s := 0; s < slots; s++ {
+		g.add("iter %d %s", s, kinds[R.Intn(len(kinds))])
+	}
+	remover := R.Intn(slots) // the slot that removes most
+	quiet := R.Chance(1, 3)  // read-only: every iterator must complete
+	for i := 0; i < 3*n+6; i++ {
+		s := R.Intn(slots)
+		switch x := R.Intn(100); {
+		case x < 50:
+			if R.Chance(1, 3) {
+				g.add("hasnext %d", s)
+			}
+			g.add("next %d", s)
+			if !quiet && (s == remover && R.Chance(1, 3) || R.Chance(1, 25)) {
+				g.add("irm %d", s)
+			}
+		case x < 58:
+			g.add("hasnext %d", s)
+		case x < 64 && !quiet:
+			g.add("irm %d", s)
+		case x < 76:
+			g.add("put %d %d", ks[R.Intn(n)], g.val()) // mostly a present key: value-only
+		case x < 84:
+			g.query(2*n + 2)
+		case x < 87 && !quiet:
+			switch R.Intn(3) {
+			case 0:
+				g.add("put %d %d", 2*R.Intn(n+1)+1, g.val())
+			case 1:
+				g.add("rm %d", ks[R.Intn(n)])
+			default:
+				if R.Chance(1, 4) {
+					g.add("clear")
+				}
+			}
+		case x < 92 && !quiet:
+			g.add("iter %d %s", s, kinds[R.Intn(len(kinds))])
+		default:
+			g.add("keys")
+		}
+	}
+	for s := 0; s < slots; s++ {
+		g.add("hasnext %d", s)
+		g.add("next %d", s)
+		g.add("irm %d", s)
+	}
+	g.add("size")
+	g.add("in")
+	g.add("shape")
+}
+
 // bulk: n keys inserted in one order, neighbour queries around every boundary, then removed in another order.
 func (g *gen) bulk(n int, insOrder, delOrder string, big bool) {
 	R := g.r.R
@@ -1639,6 +1706,13 @@ func work(r *hxlib.Run) {
 				run(g, "loop-"+kind)
 			}
 		}
+	}
+
+	// 2c. several live iterators at once (the machine of the C10_multi_* theorems)
+	for rep := 0; rep < r.Scale(60, 1500); rep++ {
+		g := mk()
+		g.multiIter(r.R.Pick(1, 2, 3, 5, 7, r.R.Range(4, 30)))
+		run(g, "multi-iter")
 	}
 
 	// 3. random mixes over small, medium and large universes
